@@ -208,6 +208,9 @@ func (x *Exec) equals(t types.Type, a, b Value) *Term {
 		}
 	case *Native:
 		bn, ok := b.(*Native)
+		if ok && av.Kind == "rtype" && bn.Kind == "rtype" {
+			return MkBool(types.Identical(av.Obj.(types.Type), bn.Obj.(types.Type)))
+		}
 		return MkBool(ok && av == bn)
 	case *MapV:
 		return MkBool(av == b.(*MapV))
